@@ -12,8 +12,8 @@ RULE = (
     "non-trivial = >=2 free signals and a multi-input gate; distinct = canonical (c0,c1,startpoints,endpoints)"
 )
 BUDGET = {
-    "quick": {"workers": 16, "cases": 120, "secs": 45, "min_cases": 900},
-    "thorough": {"workers": 16, "rounds": 4, "cases": 450, "secs": 240, "min_cases": 8000},
+    "quick": {"workers": 16, "cases": 600, "secs": 60, "min_cases": 4800},
+    "thorough": {"workers": 16, "rounds": 4, "cases": 1800, "secs": 420, "min_cases": 57600},
 }
 ANCHORS = ["tx:miter", "circuit:Circuit.add_subcircuit"]
 
